@@ -556,6 +556,31 @@ def patterns_the_regex_engine_remarks_on(ctx, r):
     return True
 
 
+def literals_read_under_both_escape_settings(ctx, r):
+    """The same filter text, holding a string literal with an escape sequence, compiled by an environment that decodes
+    escapes and by one that does not, in both orders, every literal text new to the process: each environment's result is
+    the one its own setting defines, whichever environment read the text first."""
+    import jsonpath
+
+    for i in range(40):
+        n = "%d%d" % (r.randrange(10 ** 6), i)
+        quote = r.choice("'\"")
+        text = "$[?@.s == %sx\\u0041%s%s]" % (quote, n, quote)
+        doc = [{"s": "xA" + n}, {"s": "x\\u0041" + n}, {"s": "x"}]
+        envs = {"decoding": jsonpath.JSONPathEnvironment(), "raw": jsonpath.JSONPathEnvironment(unicode_escape=False)}
+        want = {"decoding": ["$[0]"], "raw": ["$[1]"]}
+        order = r.choice([["decoding", "raw", "decoding"], ["raw", "decoding", "raw"]])
+        for which in order:
+            got = impl.call(lambda: [m.path for m in envs[which].finditer(text, doc)])
+            ctx.evaluation()
+            ctx.count("literals_read_under_both_escape_settings")
+            if not got.ok or got.value != want[which]:
+                ctx.violation("literal-means-what-another-environment-read-it-as", {"kind": "stack-depth"}, {"text": text, "environment": which, "order": order, "got": got.desc() if not got.ok else got.value, "expected": want[which]})
+                return False
+        ctx.case(h("both-settings", quote, order), True)
+    return True
+
+
 def solo(text, doc, ex):
     """Reference: fresh environment with caching off, freshly compiled, fresh deep copy."""
     import jsonpath
@@ -959,6 +984,7 @@ def run(spec, ctx):
             if not threads_over_one_document(ctx, ctx.rng):
                 break
         patterns_the_regex_engine_remarks_on(ctx, ctx.rng)
+        literals_read_under_both_escape_settings(ctx, ctx.rng)
         return
     install()
     r = ctx.rng
@@ -1028,6 +1054,7 @@ def replay(case, ctx):
             if not threads_over_one_document(ctx, ctx.rng):
                 break
         patterns_the_regex_engine_remarks_on(ctx, ctx.rng)
+        literals_read_under_both_escape_settings(ctx, ctx.rng)
         return
     install()
     kind = case.get("kind", "history")
